@@ -98,7 +98,22 @@ class RandomFacade:
         return self.choice(seq)
 
 
-def install(module, unit_menu=(0.0, 0.999999), attr_names=("random", "choice")):
+class _Bound:
+    """Stands in for a function imported with `from random import shuffle` etc."""
+
+    def __init__(self, facade, name):
+        self.facade = facade
+        self.name = name
+
+    def __call__(self, *a, **k):
+        return getattr(self.facade, self.name)(*a, **k)
+
+
+def _is_random_function(obj):
+    return (type(obj).__name__ == "method" and type(getattr(obj, "__self__", None)).__name__ == "Random") or isinstance(obj, _Bound)
+
+
+def install(module, unit_menu=(0.0, 0.999999), attr_names=("random", "choice", "shuffle", "sample", "randint", "uniform")):
     """Rebind `random` (module) / `choice` (function) attributes of a pyDCOP module. Returns the undo list."""
     import types
 
@@ -113,9 +128,9 @@ def install(module, unit_menu=(0.0, 0.999999), attr_names=("random", "choice")):
             setattr(module, attr, fac)
         elif isinstance(cur, RandomFacade):
             cur.unit_menu = tuple(unit_menu)
-        elif attr == "choice" and callable(cur) and getattr(cur, "__module__", "") in ("random", None) or (
-            attr == "choice" and type(cur).__name__ == "method" and type(cur.__self__).__name__ == "Random"
-        ):
+        elif isinstance(cur, _Bound):
+            cur.facade.unit_menu = tuple(unit_menu)
+        elif _is_random_function(cur):
             undo.append((module, attr, cur))
-            setattr(module, attr, fac)
+            setattr(module, attr, _Bound(fac, cur.__name__))
     return undo
